@@ -18,7 +18,7 @@ class C06(Prop):
             "(-p -m -c -a -g), plus a sweep over record length n x carrying packets k (k in 1..12); every output is read by "
             "the strict pcapng reader, frame parser and TCP reassembler; non-trivial = the output contains at least one "
             "packet; distinct = distinct scenario digests")
-    reach = ["mode_healthy", "mode_faulty", "mode_foreign", "mode_empty", "mode_nk", "mode_bulk", "mode_huge", "output_path_holds_older_longer_file", "opt_m", "opt_c", "opt_a", "opt_g",
+    reach = ["mode_healthy", "mode_faulty", "mode_foreign", "mode_empty", "mode_nk", "mode_bulk", "mode_huge", "export_in_place", "output_path_holds_older_longer_file", "opt_m", "opt_c", "opt_a", "opt_g",
              "opt_p", "opt_l", "opt_d", "output_has_tcp", "output_has_udp", "zero_length_record", "record_smaller_than_k"]
 
     def plan(self, tier):
@@ -159,6 +159,10 @@ class C06(Prop):
             # the output path already holds a longer, valid pcapng from an earlier export (here: three sections)
             kw["pre_out"] = ex["capture"] * 3
             out.count("reach:output_path_holds_older_longer_file")
+        if spec.get("idx", 0) % 25 == 9 and spec.get("container", {}).get("fmt") != "pcap" and "pre_out" not in kw:
+            # -i X -o X: the export replaces the capture it was made from
+            kw["inplace"] = True
+            out.count("reach:export_in_place")
         if spec.get("mode") == "huge":
             kw["cpu"] = 600
         res = run_export(lane, spec, ex, out, infile_name="in.pcap" if spec.get("container", {}).get("fmt") == "pcap" else "in.pcapng", **kw)
